@@ -45,14 +45,14 @@ def cases(rng, tier):
 def nontrivial(c, impl, verd): t = verd.split(); return "nonempty" in t and "proper" in t
 def observe(dist, c, impl, verd):
     for k in verd.split():
-        if k in ("empty", "nonempty", "whole", "proper"): dist[k] = dist.get(k, 0) + 1
+        if k in ("empty", "nonempty", "whole", "proper", "as_model", "other_witness"): dist[k] = dist.get(k, 0) + 1
 def shrink_candidates(c): return gen.shrink_automata(c)
 def explain(c, impl, verd):
     return "case = cand <A>; impl = R <GetCandidateTree result> I <operand afterwards>; gate witness = L(R) included in L(A) and R non-empty whenever A is (C15_gate)"
-LEVEL_TEXT = ("Coq theorems (all automata, no bounds): the boolean gate evaluated on libvata's witness decides exactly the property (sub-language; "
+LEVEL_TEXT = ("Coq theorems (all automata, no bounds): (A) a model of the search itself (all nullary rules, then rounds keeping one justifying rule per newly reached state, reached final states, top-down pruning) yields, for every order of the rules, a sub-automaton that is non-empty whenever A is (invariant: every reached state has a tree over the kept rules; the rounds stop at a closed set, which contains every productive state); (gate) the boolean gate evaluated on libvata's witness decides exactly the property (sub-language; "
               "non-empty whenever A is), and every sub-automaton that is non-empty whenever A is satisfies it. Tie to the C++: GetCandidateTree of "
               "libvata rebuilt from /repo on generated automata (complete small slice + targeted + random) judged by the extracted verified gate.")
-LEVEL_NOTE = ("The breadth-first search of GetCandidateTree is not modelled algorithmically: the theorems cover every admissible result, the tie is the "
+LEVEL_NOTE = ("The model of the search does not stop at the first final state as the code does and scans in list order rather than hash order; which witness libvata picks is therefore not compared structurally (reported as as_model / other_witness), the tie is the "
               "gate on generated inputs. Trusted: Coq kernel, ExtrOcamlBasic extraction, OCaml/C++ glue, generators. No axioms.")
 TECHNIQUE = "Coq-verified gate (inclusion + emptiness deciders) applied to libvata's witness; correspondence on generated automata"
 DESIGN_REF = "DESIGN.md 5/C15"
